@@ -142,6 +142,13 @@ pub fn check(case: &Case) -> Verdict {
         Ok(r) => r,
         Err(p) => fail!("{}: comparing {} panicked: {}", tname, case.note, p),
     };
+    // the answers depend on the operands only
+    let h = crate::hist::mix(&[crate::hist::mix_str(&case.a), crate::hist::mix_str(&case.b), case.ty as u64, case.ua as u64, case.ub as u64]);
+    if h % 4 == 0 {
+        if let Some(m) = crate::hist::independent(h, &|| format!("{:?}", run())) {
+            fail!("{}: comparing {} {}", tname, case.note, m);
+        }
+    }
     let has_nan = amt::is_nan(a) || amt::is_nan(b);
     // internal consistency of the operator family (both orders)
     for (who, eq, ne, ops, pc) in [("a,b", eq_ab, ne_ab, ops_ab, pc_ab), ("b,a", eq_ba, ne_ba, ops_ba, pc_ba)] {
@@ -163,6 +170,18 @@ pub fn check(case: &Case) -> Verdict {
     }
     if teq != eq_ab || tpc != pc_ab {
         fail!("{}: {}: trait-level eq/partial_cmp disagree with the operators", tname, case.note);
+    }
+    // a value against itself, both operands being the same object: equal
+    // units, so the amount type's own comparison of the amount with itself
+    #[allow(clippy::eq_op)]
+    match catch(|| (cmp.same_place)(qa)) {
+        Ok((e, n, te, p)) => {
+            let own = PartialOrd::partial_cmp(&a, &a);
+            if e != (a == a) || n == e || te != e || p != own {
+                fail!("{}: {}: the first value compared with itself in place: == {}, != {}, trait eq {}, partial_cmp {:?}; its amount gives == {} and {:?}", tname, case.note, e, n, te, p, a == a, own);
+            }
+        }
+        Err(p) => fail!("{}: comparing {} with itself panicked: {}", tname, case.note, p),
     }
     // same unit: the amount type's own comparison
     if case.ua == case.ub {
